@@ -73,7 +73,7 @@ func runC20(t *testing.T, tape *sim.Tape, tier string) *Outcome {
 	o := &Outcome{}
 	cfg := drawPipelineCfg(tape, tier)
 	withPw := tape.Draw(3, "password") == 0
-	endMode := tape.Draw(5, "endmode") // 0 FIN at end, 1 FIN at boundary, 2 FIN inside, 3 RST, 4 corrupt frame
+	endMode := tape.Draw(6, "endmode") // 0 FIN at end, 1 FIN at boundary, 2 FIN inside, 3 RST, 4 corrupt frame, 5 client gone before reading
 	g := &wl.Gen{T: tape, Binary: cfg.Binary, CaseVary: cfg.CaseVary}
 	var reqs []*wl.Req
 	for i := 0; i < cfg.N; i++ {
@@ -97,8 +97,7 @@ func runC20(t *testing.T, tape *sim.Tape, tier string) *Outcome {
 	}
 	tr := &wl.RecTracer{}
 	mon := &spanMonitor{tr: tr, o: o, ctx: func() string {
-		vals, _, _, _ := c.decodeReplies()
-		ri := len(vals)
+		ri := c.serving()
 		return fmt.Sprintf("while serving request %d %q (password required: %t)", ri, argsOf(reqs, ri), withPw)
 	}}
 	tr.OnEvent = func(ev wl.SpanEvent) {
@@ -136,13 +135,19 @@ func runC20(t *testing.T, tape *sim.Tape, tier string) *Outcome {
 	case 1:
 		cut = c.ends[tape.Draw(len(c.ends), "cutreq")]
 		o.stat("fin_at_boundary", 1)
-	case 2, 3:
+	case 2, 3, 5:
 		cut = tape.Draw(len(c.stream)+1, "cut")
 		if endMode == 2 {
 			o.stat("fin_inside_or_at", 1)
-		} else {
+		} else if endMode == 3 {
 			o.stat("rst", 1)
+		} else {
+			o.stat("client_gone_before_reading", 1)
 		}
+	}
+	goneHow := 0
+	if endMode == 5 {
+		goneHow = tape.Draw(2, "gonehow")
 	}
 	// deliver stream[:cut] in batches
 	for c.sent < cut && len(o.Viol) == 0 && !c.done {
@@ -159,14 +164,27 @@ func runC20(t *testing.T, tape *sim.Tape, tier string) *Outcome {
 		}
 		c.P.Ends[0].Write(c.stream[c.sent:to])
 		c.sent = to
+		if endMode == 5 && to == cut {
+			// the client goes away with its last batch unanswered: the requests stay readable, the replies cannot be written
+			if goneHow == 0 {
+				c.P.Ends[0].Close()
+			} else {
+				c.P.Deliver(0, c.P.Inflight(0))
+				c.P.Ends[0].Reset(true)
+			}
+		}
 		c.pump(nil)
 	}
-	if !c.done {
+	if !c.done && endMode != 5 {
 		if endMode == 3 {
 			c.P.Ends[0].Reset(false)
 		} else {
 			c.P.Ends[0].CloseWrite()
 		}
+		c.pump(nil)
+	}
+	if !c.done && endMode == 5 && !c.P.Ends[0].Closed() {
+		c.P.Ends[0].Close()
 		c.pump(nil)
 	}
 	if c.panicVal != nil {
@@ -186,7 +204,7 @@ func runC20(t *testing.T, tape *sim.Tape, tier string) *Outcome {
 	c.finish()
 	o.Sched = fmt.Sprintf("%+v pw%t end%d cut%d|%s", cfg, withPw, endMode, cut, c.sched.String())
 	o.Nontrivial = endMode != 0 || cfg.Chunk != 0
-	o.Sample = map[string]any{"cfg": fmt.Sprintf("%+v", cfg), "password": withPw, "end": []string{"FIN after the last request", "FIN at a request boundary", "FIN at a drawn offset", "RST at a drawn offset", "corrupted frame"}[endMode], "requests": reqSummary(reqs), "spans": len(tr.Spans)}
+	o.Sample = map[string]any{"cfg": fmt.Sprintf("%+v", cfg), "password": withPw, "end": []string{"FIN after the last request", "FIN at a request boundary", "FIN at a drawn offset", "RST at a drawn offset", "corrupted frame", "client gone (close/reset) with its last batch unanswered: reply writes fail"}[endMode], "requests": reqSummary(reqs), "spans": len(tr.Spans)}
 	return o
 }
 
@@ -194,7 +212,7 @@ func init() {
 	register(&Check{
 		ID: "C20", Bubble: true, Run: runC20,
 		Runs:   map[string]int{"quick": 40000, "thorough": 1500000},
-		Rule:   "a case is one (pipeline, stream-end fault, delivery schedule) triple: pipelines as in C03 (every command, valid/ill-formed/unknown, QUIT, AUTH, unauthorized state with a required password, injected handler errors) x {FIN after the last request, FIN at a request boundary, FIN inside a request, RST, corrupted frame} x seeded chunking/batching; the span-nesting invariant is evaluated at every tracer, handler and reply-write event; distinct = distinct (config, end mode, cut, chunk sequence) signatures; non-trivial = stream-end fault or chunked delivery",
+		Rule:   "a case is one (pipeline, stream-end fault, delivery schedule) triple: pipelines as in C03 (every command, valid/ill-formed/unknown, QUIT, AUTH, unauthorized state with a required password, injected handler errors) x {FIN after the last request, FIN at a request boundary, FIN inside a request, RST, corrupted frame, client gone before reading so that reply writes fail} x seeded chunking/batching; the span-nesting invariant is evaluated at every tracer, handler and reply-write event; distinct = distinct (config, end mode, cut, chunk sequence) signatures; non-trivial = stream-end fault or chunked delivery",
 		Real:   []string{"redis.Server connection loop and dispatch with a tracer installed", "go-tracing span stack (tracer/common)"},
 		Stub:   []string{"tracer: recording tracer.Tracer/Span double", "transport: simulated net.Conn", "handler: recording double"},
 		Assume: []string{"the loop's extra iteration that meets end of stream may open and close a root span of its own"},
